@@ -1,20 +1,10 @@
 (* C14: the LIKE matcher of the implementation (greedy two-pointer loop with one backtrack
-   point, Model/PredImpl.like_loop) against the declarative reference (SqlSpec.like_spec).
-   They agree for every pattern when the text contains no '%' byte, and for every text when
-   the pattern contains no '%'.  (With '%' in both they differ: finding class 9.) *)
+   point, Model/PredImpl.like_loop) equals the declarative reference (SqlSpec.like_spec) for
+   every text and pattern. *)
 From Coq Require Import ZArith List Bool Lia PeanoNat.
 From TV Require Import Model.SqlSpec Model.PredImpl Model.PredClass.
 Import ListNotations.
 Open Scope Z_scope.
-
-Definition nopct (s : list Z) : Prop := Forall (fun c => c <> 37) s.
-
-Lemma has_pct_false : forall s, has_pct s = false -> nopct s.
-Proof.
-  unfold has_pct, nopct. induction s as [|c s IH]; cbn; intros H; constructor.
-  - apply orb_false_elim in H as [H _]. now apply Z.eqb_neq in H.
-  - apply IH. now apply orb_false_elim in H as [_ H].
-Qed.
 
 (* ------------------------------------------------------------------ the reference matcher *)
 Definition starm (sp : list Z) : list Z -> bool :=
@@ -59,8 +49,6 @@ Lemma suffix_trans : forall a b c, suffix a b -> suffix b c -> suffix a c.
 Proof. intros a b c [v ->] [w ->]. exists (w ++ v). now rewrite app_assoc. Qed.
 Lemma suffix_length : forall u t, suffix u t -> (length u <= length t)%nat.
 Proof. intros u t [v ->]. rewrite app_length. lia. Qed.
-Lemma suffix_nopct : forall u t, suffix u t -> nopct t -> nopct u.
-Proof. intros u t [v ->] H. unfold nopct in *. now apply Forall_app in H as [_ H]. Qed.
 
 Lemma starm_ex : forall sp t, starm sp t = true <-> exists u, suffix u t /\ like_spec sp u = true.
 Proof.
@@ -86,11 +74,11 @@ Definition starA (t : list Z) (star : option (list Z * list Z)) : nat :=
 (* N bounds every pattern suffix in play; the star component says: whatever the pattern
    after the last '%' can match further right is also reachable from the current position *)
 Definition inv (N : nat) (t p : list Z) (star : option (list Z * list Z)) : Prop :=
-  nopct t /\ (length p <= N)%nat /\
+  (length p <= N)%nat /\
   match star with
   | None => True
   | Some (sp, st) =>
-      nopct st /\ (length sp <= N)%nat /\ suffix t st /\
+      (length sp <= N)%nat /\ suffix t st /\
       match st with
       | _ :: st' => forall u, suffix u st' -> like_spec sp u = true ->
                       exists u', suffix u' t /\ like_spec p u' = true
@@ -100,8 +88,8 @@ Definition inv (N : nat) (t p : list Z) (star : option (list Z * list Z)) : Prop
 
 Lemma alt_absorb_nil : forall N p star, inv N [] p star -> like_spec p [] || alt star = like_spec p [].
 Proof.
-  intros N p star (_ & _ & H). destruct star as [[sp [|y st']]|]; cbn [alt]; try apply orb_false_r.
-  destruct H as (_ & _ & _ & J). destruct (starm sp st') eqn:E; [|apply orb_false_r].
+  intros N p star (_ & H). destruct star as [[sp [|y st']]|]; cbn [alt]; try apply orb_false_r.
+  destruct H as (_ & _ & J). destruct (starm sp st') eqn:E; [|apply orb_false_r].
   apply starm_ex in E as (u & Hs & Hu). destruct (J u Hs Hu) as (u' & Hs' & Hu').
   rewrite (suffix_nil_inv u' Hs') in Hu'. now rewrite Hu'.
 Qed.
@@ -109,8 +97,8 @@ Qed.
 Lemma alt_absorb_pct : forall N t p' star, inv N t (37 :: p') star ->
   starm p' t || alt star = starm p' t.
 Proof.
-  intros N t p' star (_ & _ & H). destruct star as [[sp [|y st']]|]; cbn [alt]; try apply orb_false_r.
-  destruct H as (_ & _ & _ & J). destruct (starm sp st') eqn:E; [|apply orb_false_r].
+  intros N t p' star (_ & H). destruct star as [[sp [|y st']]|]; cbn [alt]; try apply orb_false_r.
+  destruct H as (_ & _ & J). destruct (starm sp st') eqn:E; [|apply orb_false_r].
   apply starm_ex in E as (u & Hs & Hu). destruct (J u Hs Hu) as (u' & Hs' & Hu').
   rewrite like_pct in Hu'. apply starm_ex in Hu' as (u'' & Hs'' & Hu'').
   assert (G : starm p' t = true) by (apply starm_ex; exists u''; split; [eapply suffix_trans; eassumption|exact Hu'']).
@@ -128,9 +116,7 @@ Proof.
   cbn [like_loop]. cbv zeta. destruct t as [|x t'].
   - (* text exhausted *)
     rewrite (alt_absorb_nil N p star Hinv). now rewrite like_nil_t.
-  - pose proof Hinv as (Hnt & Hlp & Hstar).
-    assert (Hx : x <> 37) by (now inversion Hnt).
-    assert (Hnt' : nopct t') by (now inversion Hnt).
+  - pose proof Hinv as (Hlp & Hstar).
     (* the backtrack branch, shared by "pattern exhausted" and "mismatch" *)
     assert (Hback : forall (Hmis : like_spec p (x :: t') = false),
       match star with
@@ -139,87 +125,55 @@ Proof.
       | None => Some false
       end = Some (like_spec p (x :: t') || alt star)).
     { intros Hmis. rewrite Hmis. cbn [orb]. destruct star as [[sp [|y st']]|].
-      - exfalso. destruct Hstar as (_ & _ & Hs & _). apply suffix_length in Hs. cbn in Hs. lia.
-      - destruct Hstar as (Hnst & Hlsp & Hs & J).
+      - exfalso. destruct Hstar as (_ & Hs & _). apply suffix_length in Hs. cbn in Hs. lia.
+      - destruct Hstar as (Hlsp & Hs & J).
         rewrite IH.
         + cbn [alt]. f_equal. rewrite (starm_unfold sp st'). destruct st'; reflexivity.
-        + split; [now inversion Hnst|]. split; [exact Hlsp|].
-          split; [now inversion Hnst|]. split; [exact Hlsp|]. split; [apply suffix_refl|].
+        + split; [exact Hlsp|]. split; [exact Hlsp|]. split; [apply suffix_refl|].
           destruct st' as [|z st'']; [exact I|]. intros u Hu Hm. exists u. split; [now apply suffix_cons|exact Hm].
         + cbn [starA length] in *. pose proof (mul_step (length st') (S N) (length sp)). lia.
       - reflexivity. }
     destruct p as [|c p'].
     + apply Hback. reflexivity.
-    + destruct ((c =? 95) || (c =? x)) eqn:Ematch.
-      * (* one character consumed *)
-        assert (Hc : c <> 37).
-        { apply orb_prop in Ematch as [E|E]; apply Z.eqb_eq in E; lia. }
+    + destruct (c =? 37) eqn:Epct.
+      * (* '%': remember the position *)
+        apply Z.eqb_eq in Epct. subst c.
         rewrite IH.
-        -- f_equal. rewrite (like_nonpct c p' (x :: t') Hc), Ematch. reflexivity.
-        -- split; [exact Hnt'|]. split; [cbn in Hlp; lia|].
-           destruct star as [[sp st]|]; [|exact I].
-           destruct Hstar as (Hnst & Hlsp & Hs & J). split; [exact Hnst|]. split; [exact Hlsp|].
-           split; [eapply suffix_trans; [|exact Hs]; exists [x]; reflexivity|].
-           destruct st as [|y st']; [exact I|]. intros u Hu Hm.
-           destruct (J u Hu Hm) as (u' & Hs' & Hm'). rewrite (like_nonpct c p' u' Hc) in Hm'.
-           destruct u' as [|x' u'']; [discriminate|]. apply andb_prop in Hm' as [_ Hm'].
-           exists u''. split; [|exact Hm'].
-           apply suffix_cons_inv in Hs' as [Heq|Hs'].
-           ++ injection Heq as _ ->. apply suffix_refl.
-           ++ eapply suffix_trans; [|exact Hs']. exists [x']. reflexivity.
-        -- cbn [length] in *. destruct star as [[sp st]|]; cbn [starA length] in *.
-           ++ lia.
+        -- f_equal. rewrite like_pct, (alt_absorb_pct N (x :: t') p' star Hinv), (starm_unfold p' (x :: t')).
+           reflexivity.
+        -- split; [cbn in Hlp; lia|]. split; [cbn in Hlp; lia|]. split; [apply suffix_refl|].
+           intros u Hu Hm. exists u. split; [now apply suffix_cons|exact Hm].
+        -- cbn [starA length] in *. destruct star as [[sp st]|]; cbn [starA length] in *.
+           ++ destruct Hstar as (_ & Hs & _). apply suffix_length in Hs. cbn [length] in Hs.
+              assert (S (length t') * S N <= length st * S N)%nat by (apply Nat.mul_le_mono_r; lia). lia.
            ++ pose proof (mul_step (S (length t')) (S N) (length p')). lia.
-      * destruct (c =? 37) eqn:Epct.
-        -- (* '%': remember the position *)
-           apply Z.eqb_eq in Epct. subst c.
+      * apply Z.eqb_neq in Epct. destruct ((c =? 95) || (c =? x)) eqn:Ematch.
+        -- (* one character consumed *)
            rewrite IH.
-           ++ f_equal. rewrite like_pct, (alt_absorb_pct N (x :: t') p' star Hinv), (starm_unfold p' (x :: t')).
-              reflexivity.
-           ++ split; [exact Hnt|]. split; [cbn in Hlp; lia|].
-              split; [exact Hnt|]. split; [cbn in Hlp; lia|]. split; [apply suffix_refl|].
-              intros u Hu Hm. exists u. split; [now apply suffix_cons|exact Hm].
-           ++ cbn [starA length] in *. destruct star as [[sp st]|]; cbn [starA length] in *.
-              ** destruct Hstar as (_ & _ & Hs & _). apply suffix_length in Hs. cbn [length] in Hs.
-                 assert (S (length t') * S N <= length st * S N)%nat by (apply Nat.mul_le_mono_r; lia). lia.
+           ++ f_equal. rewrite (like_nonpct c p' (x :: t') Epct), Ematch. reflexivity.
+           ++ split; [cbn in Hlp; lia|].
+              destruct star as [[sp st]|]; [|exact I].
+              destruct Hstar as (Hlsp & Hs & J). split; [exact Hlsp|].
+              split; [eapply suffix_trans; [|exact Hs]; exists [x]; reflexivity|].
+              destruct st as [|y st']; [exact I|]. intros u Hu Hm.
+              destruct (J u Hu Hm) as (u' & Hs' & Hm'). rewrite (like_nonpct c p' u' Epct) in Hm'.
+              destruct u' as [|x' u'']; [discriminate|]. apply andb_prop in Hm' as [_ Hm'].
+              exists u''. split; [|exact Hm'].
+              apply suffix_cons_inv in Hs' as [Heq|Hs'].
+              ** injection Heq as _ ->. apply suffix_refl.
+              ** eapply suffix_trans; [|exact Hs']. exists [x']. reflexivity.
+           ++ cbn [length] in *. destruct star as [[sp st]|]; cbn [starA length] in *.
+              ** lia.
               ** pose proof (mul_step (S (length t')) (S N) (length p')). lia.
         -- (* mismatch *)
-           apply Hback. apply Z.eqb_neq in Epct. rewrite (like_nonpct c p' (x :: t') Epct), Ematch. reflexivity.
+           apply Hback. rewrite (like_nonpct c p' (x :: t') Epct), Ematch. reflexivity.
 Qed.
 
-(* the text has no '%': the greedy loop is exact for every pattern *)
-Theorem like_impl_text_nopct : forall t p, nopct t -> like_impl t p = Some (like_spec p t).
+(* the greedy loop is exact *)
+Theorem like_impl_correct : forall t p, like_impl t p = Some (like_spec p t).
 Proof.
-  intros t p H. unfold like_impl. rewrite (like_loop_correct (length p)).
+  intros t p. unfold like_impl. rewrite (like_loop_correct (length p)).
   - cbn [alt]. now rewrite orb_false_r.
-  - split; [exact H|]. split; [lia|exact I].
+  - split; [lia|exact I].
   - unfold like_fuel. cbn [starA]. nia.
-Qed.
-
-(* ------------------------------------------------------------------ pattern without '%' *)
-Lemma like_loop_pat_nopct : forall p fuel t, nopct p -> (length t < fuel)%nat ->
-  like_loop fuel t p None = Some (like_spec p t).
-Proof.
-  induction p as [|c p IH]; intros fuel t Hp Hf; (destruct fuel as [|fuel]; [lia|]); cbn [like_loop].
-  - destruct t; reflexivity.
-  - assert (Hc : c <> 37) by (now inversion Hp). assert (Hp' : nopct p) by (now inversion Hp).
-    destruct t as [|x t'].
-    + cbn [strip_pct]. destruct (c =? 37) eqn:E; [apply Z.eqb_eq in E; contradiction|].
-      now rewrite (like_nonpct c p [] Hc).
-    + rewrite (like_nonpct c p (x :: t') Hc). destruct ((c =? 95) || (c =? x)) eqn:Em.
-      * cbn [length] in Hf. rewrite IH; [reflexivity|exact Hp'|lia].
-      * destruct (c =? 37) eqn:E; [apply Z.eqb_eq in E; contradiction|]. reflexivity.
-Qed.
-
-Theorem like_impl_pat_nopct : forall t p, nopct p -> like_impl t p = Some (like_spec p t).
-Proof.
-  intros t p H. unfold like_impl. apply like_loop_pat_nopct; [exact H|]. unfold like_fuel. nia.
-Qed.
-
-(* outside finding class 9 *)
-Theorem like_impl_correct : forall s q, has_pct s && has_pct q = false -> like_impl s q = Some (like_spec q s).
-Proof.
-  intros s q H. apply andb_false_elim in H as [H|H].
-  - apply like_impl_text_nopct. now apply has_pct_false.
-  - apply like_impl_pat_nopct. now apply has_pct_false.
 Qed.
